@@ -13,7 +13,7 @@ Mirror of the cascade in `weasyprint/css/__init__.py`:
 * `preprocess_stylesheet`: the control flow that decides which style rules reach the matcher and in
   what order (`@import` with `ignore_imports`, `@media`, invalid rules),
 * `media_queries.evaluate_media_query`, `parse_media_query` (on token kinds),
-* `StyleFor._page_type_match`.
+* `StyleFor._page_type_match` (total: integer arithmetic only).
 
 No Mathlib, no Std.
 -/
@@ -305,20 +305,12 @@ structure PageType where
   groups : List (String × Int)
   deriving Repr
 
-/-- 2^1024 − 2^970: the least magnitude at which CPython's correctly rounded `int / int` no
-longer fits a float (`OverflowError: integer division result too large for a float`). -/
-def floatOverflowBound : Nat := 2 ^ 1024 - 2 ^ 970
-
-/-- `offset == 0 if a == 0 else (offset / a >= 0 and not offset % a)`.
-`offset / a` is true division of Python ints: its sign is the sign of `offset * a` (a float
-underflow to ±0.0 only happens when `|offset| < |a|`, where `offset % a` is non-zero anyway unless
-`offset = 0`), and it raises `OverflowError` when the quotient does not fit a float.
-`%` is Python's floored modulo (`Int.fmod`). -/
-def nthTest (a offset : Int) : Except CErr Bool :=
-  if a == 0 then .ok (offset == 0)
-  else if offset.natAbs ≥ floatOverflowBound * a.natAbs then
-    .error (.overflow "_page_type_match: offset / a")
-  else .ok (decide (0 ≤ offset * a) && Int.fmod offset a == 0)
+/-- `offset == 0 if a == 0 else (offset * a >= 0 and not offset % a)`: integer arithmetic only
+(the sign of the quotient is tested on the product since commit b05dd13); `%` is Python's floored
+modulo (`Int.fmod`). -/
+def nthTest (a offset : Int) : Bool :=
+  if a == 0 then offset == 0
+  else decide (0 ≤ offset * a) && Int.fmod offset a == 0
 
 /-- `x not in (None, y)` for an optional selector component. -/
 def mismatch {β} [BEq β] (sel : Option β) (actual : β) : Bool :=
@@ -327,26 +319,25 @@ def mismatch {β} [BEq β] (sel : Option β) (actual : β) : Bool :=
   | some s => !(s == actual)
 
 /-- The `for group_name, index in page_type.groups` loop. -/
-def groupsTest (a b : Int) (name : String) : List (String × Int) → Except CErr Bool
-  | [] => .ok false
+def groupsTest (a b : Int) (name : String) : List (String × Int) → Bool
+  | [] => false
   | (g, index) :: rest =>
     if name != g then groupsTest a b name rest
-    else do
-      let hit ← nthTest a (index + 1 - b)
-      if hit then pure true else groupsTest a b name rest
+    else if nthTest a (index + 1 - b) then true
+    else groupsTest a b name rest
 
 /-- `StyleFor._page_type_match(page_selector_type, page_type)`. -/
-def pageTypeMatch (sel : PageSelector) (page : PageType) : Except CErr Bool :=
-  if mismatch sel.side page.side then .ok false
-  else if mismatch sel.blank page.blank then .ok false
-  else if mismatch sel.first (page.index == 0) then .ok false
-  else if mismatch sel.name page.name then .ok false
+def pageTypeMatch (sel : PageSelector) (page : PageType) : Bool :=
+  if mismatch sel.side page.side then false
+  else if mismatch sel.blank page.blank then false
+  else if mismatch sel.first (page.index == 0) then false
+  else if mismatch sel.name page.name then false
   else
     match sel.index with
-    | none => .ok true
+    | none => true
     | some (a, b, none) => nthTest a (page.index + 1 - b)
     | some (a, b, some name) =>
-      if name != page.name then .ok false else groupsTest a b name page.groups
+      if name != page.name then false else groupsTest a b name page.groups
 
 /-- One `(rule, selector_list, declarations)` of `sheet.page_rules`, flattened per selector:
 `(specificity, pseudo_type, page_selector_type)`. -/
@@ -362,7 +353,7 @@ def pageDecls {α} (page : PageType) (pseudo : Option String) (origin : String)
     (sheetSpec : Option (List Nat)) : List (PageRule α) → Except CErr (List (WDecl α))
   | [] => .ok []
   | r :: rest => do
-    let hit ← pageTypeMatch r.sel page
+    let hit := pageTypeMatch r.sel page
     let spec := match sheetSpec with
       | some s => if s.isEmpty then r.spec else s
       | none => r.spec
